@@ -16,6 +16,7 @@ import (
 	"sort"
 	"strings"
 	"syscall"
+	"time"
 
 	p9p "github.com/frobnitzem/go-p9p"
 	"github.com/frobnitzem/go-p9p/ufs"
@@ -214,6 +215,9 @@ func (g *gen) next() drv.Op {
 				o.Name = plain[r.Intn(len(plain))]
 			}
 		}
+		if r.Chance(1, 8) {
+			o.WMtime = int64(r.Pick(1, 946684800, 1<<31-1, 1700000000))
+		}
 		if r.Chance(1, 12) {
 			o.UID, o.GID = []string{"root", "root", "nosuchuser_verif", ""}[r.Intn(4)], []string{"root", "nosuchgroup_verif", ""}[r.Intn(3)]
 		}
@@ -235,7 +239,7 @@ func max64(a, b int64) int64 {
 func main() {
 	r := rep.Open()
 	defer r.Close()
-	r.Rule = "each case is one ufs session of 25-55 calls (create, mkdir, open with all 256 mode bytes sampled, read/write at offsets around the file size, truncate, chmod, rename incl. into sub/parent directories and onto existing entries, remove, walk, stat, directory listing) on a fresh S/export with a twin S/twin driven by direct os calls, followed by a probe of every tree node through freshly walked fids. Names include legal dotted ones ('notes..txt', '..hidden', '...'); Tattach carries various anames; one session in four removes an open fid's file through a second fid and then Tremoves the first; after every clunk/remove/walk the process's descriptors into the export (/proc/self/fd) must equal the fids with a file open, and none may remain after Stop. A case is non-trivial when at least one operation changed the host tree; distinct by canonical case text."
+	r.Rule = "each case is one ufs session of 25-55 calls (create, mkdir, open with all 256 mode bytes sampled, read/write at offsets around the file size, truncate, chmod, rename incl. into sub/parent directories and onto existing entries, remove, walk, stat, directory listing) on a fresh S/export with a twin S/twin driven by direct os calls, followed by a probe of every tree node through freshly walked fids. Names include legal dotted ones ('notes..txt', '..hidden', '...'); Tattach carries various anames; one session in four removes an open fid's file through a second fid and then Tremoves the first; after every clunk/remove/walk the process's descriptors into the export (/proc/self/fd) must equal the fids with a file open, and none may remain after Stop. The host itself sets explicit modification times (0, 1, 2000-01-01, 2^31-1, 2^31, 2^32-1, ...) on random nodes between calls; the modification time (whole seconds) of every freshly bound fid and of every listing entry is compared with os.Lstat / os.ReadDir taken at the same point. A case is non-trivial when at least one operation changed the host tree; distinct by canonical case text."
 	rng := prng.New(r.Seed)
 
 	top, err := os.MkdirTemp("", "verif-c19-")
@@ -266,6 +270,7 @@ func main() {
 
 	nseq := r.N(300, 6000)
 	opsTotal, changed := 0, 0
+	wstatMtimeAsked, wstatMtimeApplied, hostTimes, timeChecks := 0, 0, 0, 0
 	modesSeen := map[uint8]bool{}
 	okByKind := map[string]int{}
 	for i := 0; i < nseq; i++ {
@@ -287,6 +292,7 @@ func main() {
 		treeChanged := false
 		var opsDone []drv.Op
 
+		times := drv.NewTimeOracle(sb.Export)
 		exec := func(o drv.Op) (sx.S, []byte) {
 			opsDone = append(opsDone, o)
 			caseL = append(caseL, o.Sexp())
@@ -330,6 +336,19 @@ func main() {
 					r.Fail("ufs.fd-leak", fmt.Sprintf("%s: %d descriptors into the export are open, %d fids have a file open: %v", what, len(fds), nOpen, fds), cs, nil)
 				}
 			}
+			for _, tf := range times.After(sess, o, res, fids) {
+				r.Fail("ufs."+o.Kind+"."+tf[0], what+": "+tf[1], cs, nil)
+			}
+			if o.Kind == "wstat" && o.WMtime != 0 && res == drv.SOk {
+				wstatMtimeAsked++
+				for _, f := range fids {
+					if f.Fid == o.Fid {
+						if hi, err := os.Lstat(filepath.Join(sb.Export, f.Path)); err == nil && hi.ModTime().Unix() == o.WMtime {
+							wstatMtimeApplied++
+						}
+					}
+				}
+			}
 			if d := drv.TreesEqual(tree, ttree); d != "" {
 				r.Fail("ufs."+o.Kind+".tree", fmt.Sprintf("%s: export and twin differ afterwards: %s", what, d), cs, nil)
 			}
@@ -362,6 +381,19 @@ func main() {
 				exec(drv.Op{Kind: "remove", Fid: 41})
 				exec(drv.Op{Kind: "clunk", Fid: 40})
 			}
+			if crng.Chance(1, 5) {
+				// the host itself sets a file's times (not through ufs): explicit values, so that the
+				// modification times ufs reports are not always "now"
+				nodes := g.nodes()
+				nd := nodes[crng.Intn(len(nodes))]
+				secs := []int64{0, 1, 86400 * 365 * 30, 1<<31 - 1, 1 << 31, 1<<32 - 1, 1000000007, 946684800}[crng.Intn(8)]
+				o := drv.Op{Kind: "hosttime", Rel: strings.Join(nd, "/"), Secs: secs}
+				caseL = append(caseL, o.Sexp())
+				tm := time.Unix(secs, 0)
+				os.Chtimes(filepath.Join(sb.Export, o.Rel), tm, tm)
+				os.Chtimes(filepath.Join(sb.Twin, o.Rel), tm, tm)
+				hostTimes++
+			}
 			exec(g.next())
 		}
 		// ---- probe: every node through a freshly walked fid vs the host itself
@@ -389,6 +421,9 @@ func main() {
 				if sx.String(st) != sx.String(want) {
 					r.Fail("ufs.probe.stat", fmt.Sprintf("stat of %q through a fresh fid: %s, host: %s", nd.Rel, sx.String(st), sx.String(want)), cs, nil)
 				}
+				if st != drv.SErr && len(sess.LastDirs) == 1 && sess.LastDirs[0].ModTime.Unix() != hi.ModTime().Unix() {
+					r.Fail("ufs.probe.stat-mtime", fmt.Sprintf("stat of %q through a fresh fid carries modification time %d, host: %d", nd.Rel, sess.LastDirs[0].ModTime.Unix(), hi.ModTime().Unix()), cs, nil)
+				}
 			}
 			exec(drv.Op{Kind: "open", Fid: 61, Mode: 0})
 			if nd.Dir {
@@ -398,6 +433,13 @@ func main() {
 				for _, e := range ents {
 					ei, _ := e.Info()
 					l = append(l, drv.InfoSexp(e.Name(), ei.IsDir(), uint32(ei.Mode()&0o777), uint64(ei.Size())))
+				}
+				if got != drv.SErr && len(sess.LastDirs) == len(ents) {
+					for k, e := range ents {
+						if ei, err := e.Info(); err == nil && uint32(sess.LastDirs[k].ModTime.Unix()) != uint32(ei.ModTime().Unix()) {
+							r.Fail("ufs.probe.listing-mtime", fmt.Sprintf("listing of %q through a fresh fid: entry %q carries modification time %d, host: %d", nd.Rel, e.Name(), uint32(sess.LastDirs[k].ModTime.Unix()), uint32(ei.ModTime().Unix())), cs, nil)
+						}
+					}
 				}
 				if sx.String(got) != sx.String(sx.List(l)) {
 					r.Fail("ufs.probe.listing", fmt.Sprintf("listing of %q through a fresh fid: %s, host: %s", nd.Rel, trunc(sx.String(got)), trunc(sx.String(sx.List(l)))), cs, nil)
@@ -411,6 +453,7 @@ func main() {
 			}
 			exec(drv.Op{Kind: "clunk", Fid: 61})
 		}
+		timeChecks += times.Checks
 		sess.Close()
 		tw.Close()
 		if fds := drv.FdsInto(sb.S); len(fds) > 0 && sess.Dead == "" {
@@ -437,6 +480,10 @@ func main() {
 		syscall.Umask(old)
 		sb.Remove()
 	}
+	r.Extra["mtime_comparisons"] = timeChecks
+	r.Extra["host_side_chtimes"] = hostTimes
+	r.Extra["wstat_with_mtime_accepted"] = wstatMtimeAsked
+	r.Extra["wstat_with_mtime_applied_to_the_host"] = wstatMtimeApplied
 	r.Extra["sequences"] = nseq
 	r.Extra["operations"] = opsTotal
 	r.Extra["sequences_changing_the_tree"] = changed
